@@ -19,6 +19,7 @@ import (
 // rule needs to look inside).
 func Normalize(p *core.Program) {
 	curProg = p
+	normalizeMonitors(p)
 	for _, fi := range p.Funcs {
 		if fi.Decl.Body == nil {
 			continue
